@@ -135,6 +135,8 @@ def generate(prop, seed, tier):
             "clone_before": S.chance(0.12),
             "fault": None,
         }
+        if k > 0 and S.chance(0.15):
+            st["omit_fit_desc"] = True  # model.fit(data): every dimension with the documented default (MLE)
         steps.append(st)
     # faults in non-final steps
     if n_steps >= 2 and S.chance(0.4):
@@ -654,6 +656,13 @@ def execute(prop, scen):
                 Db = D[np.random.default_rng(st["twin_perm"]).permutation(len(D))]
             pre = _snapshot_params(A, scen)
             preB = _snapshot_params(B, scen)
+            omit = bool(st.get("omit_fit_desc")) and not scen.get("reuse_fit_desc") and not edit
+            scen_step = scenA
+            if omit:
+                scen_step = copy.deepcopy(scen)
+                for d_ in scen_step["dims"]:
+                    d_["method"], d_["weights"] = None, None
+                run.count("probe:refit-without-fit-descriptions")
             f = st["fault"]
             fail_at = [f["at"]] if f and f["kind"] == "F1" else None
             excA = excB = None
@@ -663,13 +672,19 @@ def execute(prop, scen):
                     if st.get("clone_before"):
                         A = copy.deepcopy(A)  # the user continues with a deep copy of the (fitted or still unfitted) model
                         run.count("probe:continued-on-deep-copy")
-                    A.fit(_as_container(D, st.get("container", "ndarray")), shared_fd_a if scen.get("reuse_fit_desc") else copy.deepcopy(fit_desc_of(scenA)))
+                    if omit:
+                        A.fit(_as_container(D, st.get("container", "ndarray")))
+                    else:
+                        A.fit(_as_container(D, st.get("container", "ndarray")), shared_fd_a if scen.get("reuse_fit_desc") else copy.deepcopy(fit_desc_of(scenA)))
                 except Exception as e:  # noqa: BLE001
                     excA = e
             firedA = shim.fired
             with seams.OptimiserShim(fail_at=fail_at) as shim:
                 try:
-                    B.fit(Db.copy(), shared_fd_b if scen.get("reuse_fit_desc") else copy.deepcopy(fit_desc_of(scen)))
+                    if omit:
+                        B.fit(Db.copy(), None)
+                    else:
+                        B.fit(Db.copy(), shared_fd_b if scen.get("reuse_fit_desc") else copy.deepcopy(fit_desc_of(scen)))
                 except Exception as e:  # noqa: BLE001
                     excB = e
             fired = bool(firedA) or (f is not None and f["kind"].startswith("F2"))
@@ -704,11 +719,11 @@ def execute(prop, scen):
             if not _all_finite(A, scen) or not _all_finite(B, scen):
                 run.inconclusive = "estimator returned non-finite parameters without raising"
                 return run
-            check_model(run, scenA, A, D, pre, si, tag)
+            check_model(run, scen_step, A, D, pre, si, tag + ("/no-fit-descriptions" if omit else ""))
             if run.violations:
                 return run
             if si > 0:
-                check_refit_equals_fresh_fit(run, scenA, A, D, hint, si, tag, st.get("container", "ndarray"))
+                check_refit_equals_fresh_fit(run, scen_step, A, D, hint, si, tag, st.get("container", "ndarray"))
                 if run.violations:
                     return run
             if edited:
@@ -728,7 +743,7 @@ def execute(prop, scen):
                 run.count("probe:caller-edited-filled-fit-description")
             if st["twin_perm"] is not None and not edited:
                 run.count("probe:twin-permuted-step")
-                check_twins(run, scen, A, B, si)
+                check_twins(run, scen_step if omit else scen, A, B, si)
                 if run.violations:
                     return run
             failed_before = False
